@@ -129,7 +129,7 @@ def impl(case):
         if len(cols) >= 2:
             try:
                 mix = [cols[0].reshape(3, 1)] + [c.copy() for c in cols[1:]]
-                if len(cols) >= 3 and case.get("mix_last"):
+                if len(cols) >= 3 and (case.get("mix_last") or case.get("_mix_alt")):
                     mix = [c.copy() for c in cols[:-1]] + [cols[-1].reshape(3, 1)]     # (the column is the LAST input this time)
                 rm = m(*mix)
                 rm = rm if isinstance(rm, tuple) else (rm,)
@@ -373,7 +373,7 @@ def stats(case, res, st):
         st["special_" + case["special"]] += 1
 
 
-def gen(rng, tier):
+def _gen_cases(rng, tier):
     n = 60 if tier == "quick" else 3000
 
     def batch(k, lo=-3.0, hi=3.0):
@@ -439,3 +439,12 @@ def gen(rng, tier):
                "D": [-2.66e-05 * rng.uniform(0.5, 2), rng.choice([0.0, 1e-8]), rng.choice([0.0, -1e-11])],
                "E": [rng.choice([0.0, 4.5e-7]), rng.choice([0.0, 3e-10]), 0.26], "T": rng.choice([35.0, 65.0, 293.15, 310.0]),
                "Tr": rng.choice([35.0, 293.15]), "Pr": rng.choice([0.0, 1.0, 0.9]), "P": rng.choice([0.0, 1.0, 0.5]), "batch": batch(1, 0.6, 5.3)}
+
+
+def gen(rng, tier):
+    # every second case with three or more inputs: the broadcast probe puts the column LAST instead of first
+    for i, c in enumerate(_gen_cases(rng, tier)):
+        # (the grating model asks for alpha_in and beta_in of one shape and says so: its column stays the wavelength)
+        if i % 2 == 1 and len(c.get("args", [])) >= 3 and c.get("fn") != "anglesFromGrating3D":
+            c["_mix_alt"] = True
+        yield c
